@@ -1065,7 +1065,11 @@ func (e *Engine) assignDests(st *State, cols []SQLVal, dests []Value, pos string
 		} else {
 			col = SQLVal{Any: true}
 		}
-		e.store(st, p, e.sqlToGo(st, col, pt.Elem(), pos))
+		gv := e.sqlToGo(st, col, pt.Elem(), pos)
+		e.store(st, p, gv)
+		if sv, ok := gv.(VSym); ok {
+			st.addTrace(TraceEv{Kind: "scanned", Pos: pos, Terms: map[string]Term{"v": sv.T}})
+		}
 	}
 }
 
